@@ -1403,6 +1403,9 @@ func (p *Posix) CompleteMultipartUpload(ctx context.Context, input *s3.CompleteM
 	bucket := *input.Bucket
 	object := *input.Key
 	uploadID := *input.UploadId
+	if !isValidUploadID(uploadID) {
+		return nil, s3err.GetAPIError(s3err.ErrNoSuchUpload)
+	}
 	parts := input.MultipartUpload.Parts
 
 	_, err := os.Stat(bucket)
@@ -1824,6 +1827,13 @@ func (p *Posix) checkUploadIDExists(bucket, object, uploadID string) ([32]byte, 
 	return sum, nil
 }
 
+// isValidUploadID reports whether a client supplied upload id can be used as
+// a single directory name below the upload's temp directory: upload ids are
+// generated by the gateway and never contain separators or dot segments
+func isValidUploadID(id string) bool {
+	return id != "" && id != "." && id != ".." && !strings.ContainsAny(id, "/\x00")
+}
+
 func (p *Posix) retrieveUploadId(bucket, object string) (string, [32]byte, error) {
 	sum := sha256.Sum256([]byte(object))
 	objdir := filepath.Join(bucket, metaTmpMultipartDir, fmt.Sprintf("%x", sum))
@@ -1971,6 +1981,9 @@ func (p *Posix) AbortMultipartUpload(_ context.Context, mpu *s3.AbortMultipartUp
 	bucket := *mpu.Bucket
 	object := *mpu.Key
 	uploadID := *mpu.UploadId
+	if !isValidUploadID(uploadID) {
+		return s3err.GetAPIError(s3err.ErrNoSuchUpload)
+	}
 
 	_, err := os.Stat(bucket)
 	if errors.Is(err, fs.ErrNotExist) {
@@ -2164,6 +2177,9 @@ func (p *Posix) ListParts(ctx context.Context, input *s3.ListPartsInput) (s3resp
 	bucket := *input.Bucket
 	object := *input.Key
 	uploadID := *input.UploadId
+	if !isValidUploadID(uploadID) {
+		return lpr, s3err.GetAPIError(s3err.ErrNoSuchUpload)
+	}
 	stringMarker := ""
 	if input.PartNumberMarker != nil {
 		stringMarker = *input.PartNumberMarker
@@ -2311,6 +2327,9 @@ func (p *Posix) UploadPart(ctx context.Context, input *s3.UploadPartInput) (*s3.
 	bucket := *input.Bucket
 	object := *input.Key
 	uploadID := *input.UploadId
+	if !isValidUploadID(uploadID) {
+		return nil, s3err.GetAPIError(s3err.ErrNoSuchUpload)
+	}
 	part := input.PartNumber
 	length := int64(0)
 	if input.ContentLength != nil {
@@ -2490,6 +2509,10 @@ func (p *Posix) UploadPartCopy(ctx context.Context, upi *s3.UploadPartCopyInput)
 	}
 	if err != nil {
 		return s3response.CopyPartResult{}, fmt.Errorf("stat bucket: %w", err)
+	}
+
+	if !isValidUploadID(*upi.UploadId) {
+		return s3response.CopyPartResult{}, s3err.GetAPIError(s3err.ErrNoSuchUpload)
 	}
 
 	sum := sha256.Sum256([]byte(*upi.Key))
